@@ -204,6 +204,11 @@ def adversarial_defs():
         S.Union('AdvU', [(7, 'AdvE', 'e'), (8, 'u16', 'h')]),
         S.Struct('AdvElem', [M('e', 'AdvE'), M('u', 'AdvU')]),
         S.Struct('AdvLim', [M('p', 'u8'), M('w', 'AdvElem', S.LIMITED, 3), M('x', 'AdvU', S.LIMITED, 2), M('q', 'u16')]),
+        # block after a dynamic field whose alignment comes only from an optional of a 1/2-byte type that is not first
+        S.Struct('AdvOptBlk', [M('a', 'u8', S.DYNAMIC), M('b', 'u8'), M('c', 'u8', S.OPTIONAL)]),
+        S.Struct('AdvOptBlk2', [M('n', 'u8'), M('items', 'u8', S.EXT, sizer='n'), M('flag', 'u8'), M('opt', 'u16', S.OPTIONAL),
+                                M('z', 'u8')]),
+        S.Struct('AdvOptBlkOuter', [M('p', 'u16'), M('t', 'AdvOptBlk2'), M('q', 'u8')]),
         # nested enums at depth >= 1 (rendering), optional enum, enum arrays
         S.Struct('AdvDeep', [M('b', 'byte', S.DYNAMIC), M('el', 'AdvElem'), M('oe', 'AdvE', S.OPTIONAL),
                              M('ea', 'AdvE', S.FIXED, 2), M('z', 'u8')]),
